@@ -566,6 +566,14 @@ func (e *Exec) globalLoc(g *ssa.Global) *Loc {
 	// as zero values (e.g. a nil sentinel error) — refuse instead
 	if g.Pkg != nil {
 		if ini := g.Pkg.Func("init"); ini == nil || ini.Blocks == nil {
+			// sentinel errors of packages not loaded from source: distinct opaque non-nil errors
+			pt := g.Type().(*types.Pointer)
+			if types.Identical(pt.Elem(), types.Universe.Lookup("error").Type()) &&
+				(strings.HasPrefix(g.Name(), "Err") || g.Name() == "EOF" || g.Name() == "Canceled" || g.Name() == "DeadlineExceeded") {
+				l := e.allocGlobal(g)
+				l.val = e.newOpaqueErr(g.String(), nil)
+				return l
+			}
 			e.unsupported("read of package-level variable " + g.String() + ": list its package in check.json packages/std")
 		}
 	}
@@ -624,6 +632,18 @@ func (e *Exec) ensureInit(p *ssa.Package) {
 const maxDepth = 400
 
 func (e *Exec) callFunction(caller *frame, fn *ssa.Function, args []Value, env []Value) Value {
+	// the wall clock: a frozen, zero instant unless a check installs its own model
+	// (code whose behaviour depends on elapsed time must take its clock from the harness)
+	if fn.Pkg != nil && fn.Pkg.Pkg.Path() == "time" && fn.Signature.Recv() == nil && e.prog.intrinsics[fn.String()] == nil {
+		switch fn.Name() {
+		case "Now":
+			e.warnings["time.Now() is the zero instant (frozen clock)"]++
+			return e.zero(fn.Signature.Results().At(0).Type())
+		case "Since", "Until":
+			e.warnings["time.Since/Until return 0 (frozen clock)"]++
+			return e.ts.BV(64, 0)
+		}
+	}
 	if fn.Blocks == nil {
 		return e.callExternal(caller, fn, args)
 	}
